@@ -13,6 +13,13 @@ counts and grid-search winners observed there — on the Lean `World`; after eve
 every live model is compared (fitted?, tol/max_iter, n_coefs, per term: lam, spline_order, n_splines, edge knots;
 log length; scale set?), the outcome class of queries on unfitted models, and the model's own fresh-fit check.
 
+Forced histories (every run, histories k = 5 mod 25; `forced_variant`): one caller-held expression with data-derived knots /
+categories is assigned to two constructed models (`gam.terms = e` / `set_params(terms=e)`, all four orders; one model possibly
+fitted before; lam of one possibly changed before its fit), the two are fitted on data sets with different ranges and numbers
+of categories, a third model is constructed from the same expression and fitted on a third data set, with queries in between.
+Which models, which data and which term mix is fixed by (seed, k) arithmetic: detection of shared term state does not depend
+on the draw.  Judged by the same oracles as the random histories (stream `history.assigned-expression` counts them).
+
 Oracles on the real code (NumPy only):
   * isolation: a digest of everything reachable from every live model (and of every caller-held expression)
     before / after every call: calls on model a leave every b != a bit-identical, query calls (predict, intervals,
@@ -353,6 +360,38 @@ def fresh_tolerance(it):
     return max(1e-9, 20.0 * MSETS[it['mset']][0])
 
 
+# ---- forced histories: one expression assigned to two constructed models, fitted on different data -------------
+FORCED_EVERY, FORCED_OFFSET = 25, 5       # histories k = 5, 30, 55, ... of every run (8 quick, 80 thorough)
+FORCED_HOWS = [('attr', 'set_params'), ('set_params', 'attr'), ('attr', 'attr'), ('set_params', 'set_params')]
+FORCED_DATA = [(0, 1, 2), (1, 2, 0), (2, 0, 1), (1, 0, 2), (2, 1, 0), (0, 2, 1)]
+FORCED_MIXES = [('S0', 'F2'), ('S0', 'S1', 'F2'), ('F2',), ('S0',), ('L1', 'F2'), ('S0', 'L1'), ('S1', 'F2'), ('S0', 'F2')]
+
+
+def forced_variant(seed, k):
+    """settings of the forced history number k (None for the random histories): everything that decides whether shared
+    term state becomes visible is fixed by (seed, k) arithmetic, not drawn - the term mix has data-derived knots /
+    categories, the two models get the SAME expression object, and they are fitted on data sets with different ranges
+    and different numbers of categories"""
+    if k % FORCED_EVERY != FORCED_OFFSET:
+        return None
+    v = k // FORCED_EVERY
+    r = random.Random('C15-forced-%d-%d' % (seed, v))
+    specs = []
+    for name in FORCED_MIXES[v % len(FORCED_MIXES)]:
+        kind, feat = name[0], int(name[1])
+        lam = r.randrange(len(LAMS))
+        if kind == 'S':       # uk=-1: knots derived from the data of the fit
+            specs.append(dict(kind='S', feature=feat, n=r.choice([5, 6, 7, 8]), order=r.choice([2, 3]), lam=lam, uk=-1))
+        elif kind == 'L':
+            specs.append(dict(kind='L', feature=feat, n=0, order=0, lam=lam, uk=-1))
+        else:
+            specs.append(dict(kind='F', feature=feat, n=20, order=0, lam=lam, uk=-1))
+    lam2 = (specs[0]['lam'] + 1 + r.randrange(len(LAMS) - 1)) % len(LAMS)        # != the expression's first lam
+    return dict(v=v, cls=CLASS_NAMES[(v + seed) % len(CLASS_NAMES)], hows=FORCED_HOWS[v % len(FORCED_HOWS)],
+                data=FORCED_DATA[v % len(FORCED_DATA)], specs=specs, prefit=v % 2 == 1, setlam=v % 4 >= 2, lam2=lam2,
+                lam_how=['attr', 'set_params'][(v // 4) % 2])
+
+
 def run_history(args):
     """execute one random history on the real objects; returns the model line, the observations and oracle findings"""
     seed, tier, k, mutate_hint = args
@@ -504,14 +543,17 @@ def run_history(args):
                               property_level=True))
 
     # ---- always start with one expression and one model
-    def do_mkexpr():
-        feats = rng.sample(range(NF), rng.choice([1, 1, 2, 2, 3]))
-        feats.sort()
-        if mutate_hint == 'splines-only' or rng.random() < 0.35:
-            feats = [f for f in feats if f != 2] or [0]
-            specs = [gen_spec(rng, f, 'S') for f in feats]
+    def do_mkexpr(specs=None):
+        if specs is not None:
+            specs = copy.deepcopy(specs)
         else:
-            specs = [gen_spec(rng, f) for f in feats]
+            feats = rng.sample(range(NF), rng.choice([1, 1, 2, 2, 3]))
+            feats.sort()
+            if mutate_hint == 'splines-only' or rng.random() < 0.35:
+                feats = [f for f in feats if f != 2] or [0]
+                specs = [gen_spec(rng, f, 'S') for f in feats]
+            else:
+                specs = [gen_spec(rng, f) for f in feats]
         before = snapshot()
         with quiet():
             real.exprs.append(real.fresh_terms(specs))
@@ -533,12 +575,15 @@ def run_history(args):
         check_frame('J', before, after, None, False, 'joinExpr')
         return 'J %d %d' % (a, b), None, 'alloc'
 
-    def do_construct():
+    def do_construct(e=None, cls=None):
         if len(real.models) >= MAXMODELS:
             return None
-        e = rng.randrange(len(real.exprs))
-        cls = rng.choice(CLASS_NAMES)
-        sk = rng.random() < 0.3 and cls in ('linear', 'gamma', 'invgauss', 'expectile', 'generic')
+        forced = cls is not None
+        if e is None:
+            e = rng.randrange(len(real.exprs))
+        if cls is None:
+            cls = rng.choice(CLASS_NAMES)
+        sk = (not forced) and rng.random() < 0.3 and cls in ('linear', 'gamma', 'invgauss', 'expectile', 'generic')
         it = dict(cls=cls, mset=rng.randrange(len(MSETS)), sk=bool(sk), terms=copy.deepcopy(real.especs[e]))
         before = snapshot()
         with quiet():
@@ -553,14 +598,16 @@ def run_history(args):
         c = [j for j in range(len(real.models)) if pred(j)]
         return rng.choice(c) if c else None
 
-    def do_fit():
-        j = pick_model(lambda j: not hasattr(real.models[j], 'coef_')) if rng.random() < 0.4 else None
+    def do_fit(j=None, d=None):
         if j is None:
-            j = pick_model()
+            j = pick_model(lambda j: not hasattr(real.models[j], 'coef_')) if rng.random() < 0.4 else None
+            if j is None:
+                j = pick_model()
         if j is None:
             return None
         it = real.intent[j]
-        d = rng.randrange(N_TRAIN if rng.random() < 0.8 else 2 * N_TRAIN)
+        if d is None:
+            d = rng.randrange(N_TRAIN if rng.random() < 0.8 else 2 * N_TRAIN)
         m = real.models[j]
         X, y, kw = real.fit_args(it, d)
         before = snapshot()
@@ -593,17 +640,20 @@ def run_history(args):
         cnt('fit', 'refit' if warm else 'first')
         return 'F %d %d %d' % (j, d, iters), j, 'fit'
 
-    def do_query():
-        j = pick_model(lambda j: hasattr(real.models[j], 'coef_')) if rng.random() < 0.85 else None
+    def do_query(j=None, q=None, d=None):
         if j is None:
-            j = pick_model()
+            j = pick_model(lambda j: hasattr(real.models[j], 'coef_')) if rng.random() < 0.85 else None
+            if j is None:
+                j = pick_model()
         if j is None:
             return None
         it = real.intent[j]
         m = real.models[j]
-        q = rng.choice(QUERIES)
+        if q is None:
+            q = rng.choice(QUERIES)
         # query data: categories of the query set must be known to the model -> use the {0,1} restriction
-        d = N_TRAIN + rng.randrange(N_TRAIN)
+        if d is None:
+            d = N_TRAIN + rng.randrange(N_TRAIN)
         before = snapshot()
         exc = run_query(real, q, m, it, d)
         after = snapshot()
@@ -698,14 +748,16 @@ def run_history(args):
                                         ' '.join('%d %d' % (c, it_) for c, it_ in zip(codes, iters)), bi)
         return toks, j, 'grid'
 
-    def do_setlam():
-        j = pick_model()
+    def do_setlam(j=None, c=None, how=None):
+        if j is None:
+            j = pick_model()
         if j is None:
             return None
-        c = rng.randrange(len(LAMS))
+        if c is None:
+            c = rng.randrange(len(LAMS))
         m = real.models[j]
         before = snapshot()
-        if rng.random() < 0.5:
+        if (rng.random() < 0.5) if how is None else (how == 'set_params'):
             m.set_params(lam=LAMS[c])
         else:
             m.lam = LAMS[c]
@@ -731,7 +783,7 @@ def run_history(args):
         cnt('set_params', 'spline_order ' + ('fitted' if hasattr(m, 'coef_') else 'unfitted'))
         return 'SO %d %d' % (j, c), j, 'set'
 
-    def do_assign(j=None, e=None):
+    def do_assign(j=None, e=None, how=None):
         """gam.terms = expr / gam.set_params(terms=expr): the same caller-held expression object may go to several models"""
         if j is None:
             j = pick_model()
@@ -745,7 +797,8 @@ def run_history(args):
             # (a bare Term is only wrapped by the constructor; assigning one makes fit raise TypeError - outside C15)
             expr = pygam.terms.TermList(expr)
         before = snapshot()
-        how = rng.choice(['attr', 'set_params'])
+        if how is None:
+            how = rng.choice(['attr', 'set_params'])
         cur['desc'] = 'assign terms of model %d := expression %d (%s)' % (j, e, how)
         if how == 'attr':
             m.terms = expr
@@ -806,6 +859,25 @@ def run_history(args):
             script.append(do_setlam)
         script += [do_fit, do_fit, do_query]
         nops = max(nops, len(script))
+    fv = forced_variant(seed, k)
+    if fv is not None:
+        # every run, nothing left to the draw: the caller's expression e1 goes to two constructed models (one of them
+        # possibly fitted before) by `gam.terms = e1` / `set_params(terms=e1)`; optionally the smoothing parameter of
+        # model 0 is changed before its fit; model 0 is fitted on data A, model 1 on data B (other range, other number
+        # of categories); a query on model 0; a third model is constructed from e1 and fitted on data C; a query on
+        # model 1.  The isolation oracle (models other than the target bit-identical, caller's expression untouched)
+        # and the fresh-fit oracle (predictions, statistics, compiled term state == brand-new model) judge every step.
+        dA, dB, dC = fv['data']
+        cls = fv['cls']
+        script = [do_mkexpr, lambda: do_construct(0, cls), lambda: do_construct(0, cls), lambda: do_mkexpr(fv['specs'])]
+        if fv['prefit']:
+            script.append(lambda: do_fit(0, dC))
+        script += [lambda: do_assign(0, 1, fv['hows'][0]), lambda: do_assign(1, 1, fv['hows'][1])]
+        if fv['setlam']:
+            script.append(lambda: do_setlam(0, fv['lam2'], fv['lam_how']))
+        script += [lambda: do_fit(0, dA), lambda: do_fit(1, dB), lambda: do_query(0, 'predict', N_TRAIN + dA),
+                   lambda: do_construct(1, cls), lambda: do_fit(2, dC), lambda: do_query(1, 'pdep', N_TRAIN + dB)]
+        nops = len(script)
     aborted = False
     while len(ops) < nops and not aborted:
         fn = script.pop(0) if script else rng.choices([f for f, _ in menu], [w for _, w in menu])[0]
@@ -827,7 +899,12 @@ def run_history(args):
                           obs=[dict(real.observe(j), stale=(j in real.stale)) for j in range(len(real.models))]))
     env = '%d %d %s' % (len(sets), NF, ' '.join('%d %d %d' % r for r in krows))
     line = 'C15 hist %s | %s' % (env, ' ; '.join(ops))
-    return dict(k=k, line=line, ops=ops, steps=steps, fails=fails, notes=notes, counts=counts,
+    forced = None
+    if fv is not None:
+        forced = dict(v=fv['v'], cls=fv['cls'], hows=list(fv['hows']), data=list(fv['data']), prefit=fv['prefit'], setlam=fv['setlam'],
+                      mix='+'.join(sp['kind'] + str(sp['feature']) for sp in fv['specs']),
+                      completed=(not aborted) and not script and len(ops) == nops and not any(f['kind'] == 'call-raised' for f in fails))
+    return dict(k=k, line=line, ops=ops, steps=steps, fails=fails, notes=notes, counts=counts, forced=forced,
                 nmodels=len(real.models), classes=sorted({it['cls'] for it in real.intent}))
 
 
@@ -952,6 +1029,13 @@ def run_histories(ctx, pygam, pool, only=None):
     ctx.stream(st_iso, ORACLE_TEXT['isolation'])
     ctx.stream(st_fresh, ORACLE_TEXT['fresh-fit'] + ' (1e-10 normal/identity, 20*tol otherwise; x10 before a failing input is declared)')
     ctx.stream(st_pure, ORACLE_TEXT['query-not-pure'])
+    st_forced = 'history.assigned-expression'
+    ctx.stream(st_forced, 'every run (histories k = %d mod %d, nothing drawn that decides visibility): ONE term expression with data-derived '
+               'knots / categories assigned to two constructed models (gam.terms = e / set_params(terms=e), one possibly fitted before, '
+               'lam of one possibly changed before its fit), the models fitted on data with different ranges / numbers of categories, a '
+               'third model constructed from the same expression and fitted on a third data set: after every step every other model '
+               'and the caller\'s expression bit-identical, every fit == fit of a brand-new model (predictions, statistics, edge knots, '
+               'numbers of coefficients); failures are reported in the isolation / fresh-fit streams' % (FORCED_OFFSET, FORCED_EVERY))
     stmap = {'isolation': st_iso, 'query-not-pure': st_pure, 'fresh-fit': st_fresh, 'fresh-fit-termstate': st_fresh, 'fresh-fit-statistics': st_fresh,
              'fresh-fit-raised': st_fresh, 'predict-after-fit-raised': st_fresh, 'keep_best-not-winner': st_iso,
              'copy-differs': st_iso, 'call-raised': st_state, 'expression-mutated': st_iso, 'gridsearch-self-not-first': st_state}
@@ -976,6 +1060,12 @@ def run_histories(ctx, pygam, pool, only=None):
                 ctx.count(b, kk, v)
         for n_ in rec['notes']:
             ctx.count('note', n_)
+        if rec.get('forced'):
+            fo = rec['forced']
+            ctx.case(st_forced, {k_: fo[k_] for k_ in ('cls', 'hows', 'data', 'prefit', 'setlam', 'mix')}, nontrivial=fo['completed'],
+                     sample=dict(ops=rec['ops']))
+            ctx.count('forced assigned-expression history', 'completed' if fo['completed'] else 'truncated (%s)' % fo['cls'])
+            ctx.count('forced assigned-expression history: assignment order', ' / '.join(fo['hows']))
         # oracle streams: one case per relevant op
         for s_ in rec['steps']:
             kd = s_['kind']
@@ -1519,7 +1609,8 @@ def run(ctx):
     pygam = common.import_pygam()
     ctx.extra['rule'] = ('random call histories (ops: new expression, e1+e2, construct from a shared expression, fit on one of 6 data sets, '
                          'six kinds of query, sample, gridsearch(keep_best T/F), set_params(lam / spline_order / tol,max_iter), deepcopy / pickle, '
-                         'gam.terms = expr / set_params(terms=expr) with one expression handed to several models) '
+                         'gam.terms = expr / set_params(terms=expr) with one expression handed to several models; plus, every run, forced histories: one expression '
+                         'assigned to two models fitted on data with other ranges / numbers of categories, a third model built from it) '
                          'over the 7 model classes; distinct = distinct op sequences; non-trivial = at least two live models and at least one fit; '
                          'array stream: class x memory layout; row-wise stream: class x term mix x index set')
     ctx.assumptions.append('PIRLS reaches the optimum determined by (settings, compiled terms, data) from any start: measured on every refit / '
